@@ -228,6 +228,7 @@ def gen_cases(rng, tier, ctx):
         cases.append({'kind': 'from_float', 'x': f.hex(), 'mode': mode})
     cases.extend(gen_round3(rng, tier, n))
     cases.extend(gen_round4(rng, tier, n))
+    cases.extend(gen_round5(rng, tier, n))
     return cases
 
 
@@ -346,6 +347,91 @@ def gen_round4(rng, tier, n):
     return cases
 
 
+def _ff(ty, x, mode=None):
+    """one conversion step: TimeType.from_float(<view `ty` of the float x>[, mode]); the rational views hold the exact
+    binary value of x (so they are == x and hash like x)"""
+    if ty == 'float':
+        return {'kind': 'from_float', 'x': float(x).hex(), 'mode': mode if mode in (None, 0) else float(mode).hex()}
+    if mode == 0 and ty in ('time', 'int'):
+        ty = 'mpq'            # mode 0 hands the value to gmpy2.mpq(): a TimeType is not accepted there (not a float anyway)
+    return {'kind': 'conv', 'how': ('from_float0:' if mode == 0 else 'from_float:') + ty, 't': str(F(x))}
+
+
+HIST_FLOATS = [0.1, 0.3, 0.7, 1 / 3, 4.35, 2.675, 1e-7, 123456.789, 0.1 + 0.2, -0.1, 1e23, -1e23, 3e22, 1e24,
+               9007199254740993.0 * 8 + 16, 5e-324, 1.7976931348623157e308]
+
+
+def gen_round5(rng, tier, n):
+    cases = []
+    # (a) histories (class of seed C14-7: state left behind by an earlier call with an ==-equal / hash-equal argument of
+    #     another type).  Views of one float x: the float itself (documented result: shortest decimal), and TimeType / mpq /
+    #     Fraction (/ int for integral x) holding its exact binary value (documented result: that value).  Every step is
+    #     judged by the stateless specification.
+    def views(x):
+        return ['time', 'mpq', 'Fraction'] + (['int'] if float(x).is_integer() else [])
+    half = {'kind': 'bin', 'op': 'add', 't': '1/2', 'swap': False}
+    for x in HIST_FLOATS:
+        fl = {'ty': 'float', 'v': float(x).hex()}
+        for ty in views(x):
+            cases.append({'kind': 'seq', 'steps': [_ff(ty, x), _ff('float', x), dict(half, other=fl), _ff(ty, x)]})
+            cases.append({'kind': 'seq', 'steps': [_ff('float', x), _ff(ty, x), _ff('float', x),
+                                                   {'kind': 'cmp', 'op': 'eq', 't': str(F(x)), 'other': fl, 'swap': False}]})
+        # the mode must stay part of what is remembered: None / 0 / tolerance on the same float, back and forth
+        steps = [_ff('float', x, 0), _ff('float', x), _ff('float', x, 0), _ff('time', x, 0), _ff('float', x)]
+        if abs(x) < 1e6:
+            steps[3:3] = [_ff('float', x, 0.25), _ff('float', x, 0.001)]
+        cases.append({'kind': 'seq', 'steps': steps})
+    for _ in range(40 * n):
+        xs = [rng.choice([rnd_float(rng), X.rnd_float64(rng)]) for _ in range(rng.randint(1, 2))]
+        steps = []
+        for _ in range(rng.randint(3, 6)):
+            x = rng.choice(xs)
+            r = rng.random()
+            if r < 0.45:
+                steps.append(_ff('float', x, rng.choice([None, None, 0])))
+            elif r < 0.8:
+                steps.append(_ff(rng.choice(views(x)), x, rng.choice([None, None, 0])))
+            else:
+                steps.append({'kind': 'bin', 'op': rng.choice(['add', 'sub', 'mul']), 't': str(rnd_frac(rng)),
+                              'other': {'ty': 'float', 'v': float(x).hex()}, 'swap': rng.random() < 0.5})
+        cases.append({'kind': 'seq', 'steps': steps})
+    # (b) powers through the operand dispatch (class of seed C14-8: the reflected power with a base that is not an
+    #     integer): every operand type as exponent of a time value and as base under an integer-valued time exponent
+    for k in X.EXACT_KINDS + X.REAL_KINDS:
+        for e in (2, -3, 0, 3):
+            v = X.pow_operand(k, e, rng, as_base=False)
+            if v is not None:
+                base = F(0) if (e > 0 and rng.random() < 0.1) else rnd_frac(rng)
+                cases.append({'kind': 'disp', 'op': 'pow', 't': str(base), 'v': v, 'swap': False})
+            if k in ('sympy.Float', 'mpfr'):
+                continue                      # their own power: an inexact float, not a TimeType operation
+            v = X.pow_operand(k, e, rng, as_base=True)
+            if v is not None:
+                cases.append({'kind': 'disp', 'op': 'pow', 't': str(e), 'v': v, 'swap': True})
+    for _ in range(40 * n):
+        e = rng.randint(-4, 5)
+        x = rng.choice([0.1, 0.3, 2.5, -0.7, 1.5, 1e-3, 12.25, -3.0, rnd_float(rng)])
+        if abs(x) > 1e3 or (x == 0 and e < 0):
+            x = 0.1
+        cases.append({'kind': 'bin', 'op': 'pow', 't': str(e), 'other': {'ty': 'float', 'v': float(x).hex()}, 'swap': True})
+    # (c) non-integral exponents (not a field operation; the result is an approximation and must not pose as exact)
+    for a in (F(9), F(4), F(2), F(1, 4), F(27, 8), F(10), F(0), F(1)):
+        for ex in (F(1, 2), F(3, 2), F(1, 3), F(-1, 2), F(5, 4), F(2, 3)):
+            if a == 0 and ex < 0:
+                continue
+            for swap in (False, True):
+                for ty in ('int', 'time', 'frac', 'float') if a.denominator == 1 else ('time', 'frac', 'float'):
+                    if swap and ty == 'time':
+                        continue
+                    if ty == 'float' and F(float(a)) != a:
+                        continue
+                    # swap: <ty>(a) ** TimeType(ex); otherwise TimeType(a) ** <ty>(ex)
+                    if not swap and (ty == 'int' or (ty == 'float' and F(float(ex)) != ex)):
+                        continue
+                    cases.append({'kind': 'powni', 'a': str(a), 'e': str(ex), 'ty': ty, 'swap': swap})
+    return cases
+
+
 def _operand_py(o):
     from qupulse.utils.types import TimeType
     if o['ty'] == 'int':
@@ -398,6 +484,25 @@ def run_impl(case):
         if 'ret' in o:
             o['ret'] = [int(o['ret'].numerator), int(o['ret'].denominator)]
         return o
+    if k == 'seq':
+        return {'steps': [run_impl(st) for st in case['steps']]}
+    if k == 'powni':
+        a, ex = F(case['a']), F(case['e'])
+        mkv = {'int': lambda q: int(q), 'frac': lambda q: q, 'float': lambda q: float(q),
+               'time': lambda q: TimeType.from_fraction(q.numerator, q.denominator)}
+        if case['swap']:
+            fn = lambda: mkv[case['ty']](a) ** mkv['time'](ex)
+        else:
+            fn = lambda: mkv['time'](a) ** mkv[case['ty']](ex)
+        o = _outcome(fn)
+        if 'ret' in o:
+            r = o['ret']
+            exact = isinstance(r, (int, F, TimeType)) or type(r) is TimeType._InternalType
+            try:
+                o = {'ret': vlib.frac_json(F(float(r)) if not exact else r), 'exact': bool(exact)}
+            except Exception as e:
+                o = {'crash': 'power result %r: %s' % (r, e)}
+        return o
     if k in ('bin', 'cmp', 'hash'):
         tf = F(case['t'])
         t = TimeType.from_fraction(tf.numerator, tf.denominator)
@@ -430,6 +535,8 @@ def run_impl(case):
                 r = TimeType(tf.numerator, tf.denominator) if arg == 'pair' else TimeType(mk[arg]())
             elif how == 'from_float':
                 r = TimeType.from_float(mk[arg]())
+            elif how == 'from_float0':
+                r = TimeType.from_float(mk[arg](), 0)
             elif how == 'time_from_fraction':
                 r = qtypes.time_from_fraction(tf.numerator, tf.denominator)
             elif how == 'time_from_float':
@@ -528,7 +635,17 @@ def to_coq(case, obs):
     k = case['kind']
     if 'crash' in obs or 'hang' in obs:
         return '(CCrash)'
+    if k == 'conv' and 'ret' not in obs:
+        return '(CCrash)'
     zz = lambda r: '(%s, %s)' % (gZ(r[0]), gZ(r[1]))
+    if k == 'seq':
+        return '(CSeq [%s])' % '; '.join(to_coq(c, o) for c, o in zip(case['steps'], obs['steps']))
+    if k == 'powni':
+        if 'ret' not in obs:
+            return '(CCrash)'
+        ex = F(case['e'])
+        return '(CPowNI %s %s %s %s %s)' % (gQ(F(case['a'])), gZ(ex.numerator), X._lit(ex.denominator), gQ(F(obs['ret'])),
+                                            gbool(obs['exact']))
     if k == 'approx_int':
         return '(CApproxInt %s %s %s %s)' % (gZ(case['a']), gZ(case['d']), gZ(case['den']), _g_outcome(obs, zz))
     if k == 'approx_rat':
@@ -615,6 +732,8 @@ def nontrivial(case, obs):
         return case['v']['k'] not in ('time', 'int')
     if k == 'hashval':
         return F(case['q']).denominator != 1 or abs(F(case['q'])) >= 2 ** 61 - 1
+    if k == 'seq':
+        return len({st['kind'] + st.get('how', '') for st in case['steps']}) > 1
     return True
 
 
@@ -632,6 +751,14 @@ def histogram_keys(case, obs):
     if k == 'disp':
         keys.append('disp:%s' % case['v']['k'])
         keys.append('disp:result=%s' % obs.get('b', 'crash'))
+    if k == 'seq':
+        kinds = {('float' if st['kind'] == 'from_float' else st.get('how', st['kind']).split(':')[-1]) for st in case['steps']}
+        keys.append('seq:len=%d' % len(case['steps']))
+        keys.append('seq:' + ('float+rational-view' if 'float' in kinds and kinds & {'time', 'mpq', 'Fraction', 'int'} else 'other'))
+        keys.append('obs:' + ('crash' if any('crash' in o or 'hang' in o for o in obs.get('steps', [{'crash': 1}])) else 'ret'))
+        return keys
+    if k == 'powni':
+        keys.append('powni:%s:%s' % (case['ty'], 'reflected' if case['swap'] else 'direct'))
     if k == 'frt':
         x = abs(float.fromhex(case['x']))
         keys.append('frt:' + ('zero' if x == 0 else 'subnormal' if x < 2.0 ** -1022 else 'integral>2^53' if x >= 2.0 ** 53 else
